@@ -104,7 +104,7 @@ def nontrivial(suite, case, impl):
     return tr.ok and sum(1 for x in O.walk(tr) if x[1] == "OK" and x[0][0] in (1, 2, 3, 4, 17, 18)) >= 3
 
 
-TOUCH = {1: [2], 2: [2], 3: [2], 4: [2], 7: [2], 10: [1], 16: [1], 17: [3, 4], 18: [2]}
+TOUCH = {1: [2], 2: [2], 3: [2], 4: [2], 7: [2], 10: [1], 16: [1], 17: [3, 4], 18: [2], 34: [2], 35: [2]}
 
 
 def step_slack(op, k, b0, b1, ref):
@@ -117,7 +117,7 @@ def step_slack(op, k, b0, b1, ref):
     sv = asv1 + lsv1
     if kind in (1, 7, 10, 18):
         return acc
-    if kind in (2, 3, 17):
+    if kind in (2, 3, 17, 34, 35):
         return acc + sv
     if kind == 4:
         return acc + (ONE if op[4] == 1 else 0)
